@@ -17,6 +17,7 @@ import (
 	"sort"
 	"strings"
 	"sync"
+	"sync/atomic"
 	"time"
 
 	"mosn.io/api"
@@ -51,6 +52,68 @@ func init() {
 }
 
 var phaseOrder = map[string]int{"idle": 0, "hdr": 1, "body": 2, "wait": 3, "resp": 4}
+
+// arrivalWaitMs bounds the wait for a request to show up at the upstream (shortened once the proxy process is gone).
+var arrivalWaitMs = int64(ioWait / time.Millisecond)
+
+// live is one client connection of a trial and the state of its current request.
+type live struct {
+	cl  client
+	k   int
+	ph  string
+	tok string
+}
+
+// advanceReq moves the current request of connection n on, one phase at a time, until it is in phase `to`
+// ("idle" = response completely read and verified); every phase reached is recorded.
+func advanceReq(tr *ttrace, arr *arrivals, lv *live, n, to, prefix string, cc connCase) (bool, string) {
+	for lv.ph != to {
+		switch lv.ph {
+		case "idle":
+			lv.k++
+			lv.tok = fmt.Sprintf("%s-%s-%d", prefix, n, lv.k)
+			size := smallResp
+			if cc.Ph == "resp" && lv.k == cc.Done+1 {
+				size = lv.cl.BigSize()
+			}
+			if err := lv.cl.Hdr(lv.tok, size); err != nil {
+				return false, "write headers: " + short(err)
+			}
+			lv.ph = "hdr"
+		case "hdr":
+			if err := lv.cl.HalfBody(); err != nil {
+				return false, "write body: " + short(err)
+			}
+			lv.ph = "body"
+		case "body":
+			if err := lv.cl.Rest(); err != nil {
+				return false, "write body: " + short(err)
+			}
+			if !arr.wait(lv.tok, time.Duration(atomic.LoadInt64(&arrivalWaitMs))*time.Millisecond) {
+				return false, "request never reached the upstream"
+			}
+			lv.ph = "wait"
+		case "wait":
+			arr.release(lv.tok)
+			if to == "resp" {
+				if err := lv.cl.ReadHalf(); err != nil {
+					return false, "read response: " + short(err)
+				}
+				lv.ph = "resp"
+			} else {
+				ok, d := lv.cl.ReadRest()
+				lv.ph = "idle"
+				return ok, d
+			}
+		case "resp":
+			ok, d := lv.cl.ReadRest()
+			lv.ph = "idle"
+			return ok, d
+		}
+		tr.Emit(vh.Ev{"ev": "c.phase", "c": n, "k": lv.k, "ph": lv.ph})
+	}
+	return true, ""
+}
 
 // ---------------------------------------------------------------- hook events
 
@@ -193,8 +256,13 @@ func main() {
 
 	evb := newBus()
 	var curMu sync.Mutex
-	cur := "" // listener name of the running trial
+	cur := ""       // listener name of the running trial
+	swb := newBus() // go-away sweeps that have run to their end (one per listener and stop)
 	vh.Sink(func(name string, kv []interface{}) {
+		if name == "ln.goaway.done" {
+			swb.post("done")
+			return
+		}
 		curMu.Lock()
 		c := cur
 		curMu.Unlock()
@@ -239,6 +307,7 @@ func main() {
 	}
 
 	idx := 0
+	overdue := 0
 	err := vh.ReadCases(*cases, func(raw json.RawMessage) error {
 		idx++
 		if (idx-1)%*shards != *shard {
@@ -251,6 +320,11 @@ func main() {
 		li := lis[c.Proto]
 		if li == nil {
 			return fmt.Errorf("unknown proto %q", c.Proto)
+		}
+		if overdue >= 2 && c.Mode == "hang" {
+			// already recorded twice in this shard that the stop ignores its timeout: do not spend 20 s on every further stalled run
+			rs.Put(map[string]interface{}{"id": c.ID, "proto": c.Proto, "mode": c.Mode, "skipped": "stop ignores its drain timeout"})
+			return nil
 		}
 		// every trial starts from a serving proxy: bring the listeners back that the previous stop closed
 		for _, l := range lis {
@@ -281,68 +355,14 @@ func main() {
 			}
 		}
 		sort.Strings(names)
-		type live struct {
-			cl  client
-			k   int
-			ph  string
-			tok string
-		}
 		conns := map[string]*live{}
 		fail := func(what string, err error) {
 			tr.Close()
 			rs.Close()
 			vh.Must(fmt.Errorf("case %d %s: %v", c.ID, what, err), "set-up of the signal point")
 		}
-		// advance the current request of connection n, one phase at a time, until it is in phase `to`
-		// ("idle" = response completely read and verified); every phase reached is recorded
 		advance := func(n string, to string) (bool, string) {
-			lv := conns[n]
-			for lv.ph != to {
-				switch lv.ph {
-				case "idle":
-					lv.k++
-					lv.tok = fmt.Sprintf("s%d-%d-%s-%d", *shard, c.ID, n, lv.k)
-					size := smallResp
-					if c.Conns[n].Ph == "resp" && lv.k == c.Conns[n].Done+1 {
-						size = lv.cl.BigSize()
-					}
-					if err := lv.cl.Hdr(lv.tok, size); err != nil {
-						return false, "write headers: " + short(err)
-					}
-					lv.ph = "hdr"
-				case "hdr":
-					if err := lv.cl.HalfBody(); err != nil {
-						return false, "write body: " + short(err)
-					}
-					lv.ph = "body"
-				case "body":
-					if err := lv.cl.Rest(); err != nil {
-						return false, "write body: " + short(err)
-					}
-					if !arr.wait(lv.tok, ioWait) {
-						return false, "request never reached the upstream"
-					}
-					lv.ph = "wait"
-				case "wait":
-					arr.release(lv.tok)
-					if to == "resp" {
-						if err := lv.cl.ReadHalf(); err != nil {
-							return false, "read response: " + short(err)
-						}
-						lv.ph = "resp"
-					} else {
-						ok, d := lv.cl.ReadRest()
-						lv.ph = "idle"
-						return ok, d
-					}
-				case "resp":
-					ok, d := lv.cl.ReadRest()
-					lv.ph = "idle"
-					return ok, d
-				}
-				tr.Emit(vh.Ev{"ev": "c.phase", "c": n, "k": lv.k, "ph": lv.ph})
-			}
-			return true, ""
+			return advanceReq(tr, arr, conns[n], n, to, fmt.Sprintf("s%d-%d", *shard, c.ID), c.Conns[n])
 		}
 		for _, n := range names {
 			cl, err := li.dial(li.addr)
@@ -405,7 +425,10 @@ func main() {
 			// the environment stalls: nothing moves until the stop has run its course
 			evb.waitAny(30*time.Second, "onshutdown", "exit")
 			probe()
-			exited(time.Duration(drainMs)*time.Millisecond + 60*time.Second)
+			// the driver gives up 20 s after the drain time (300 ms): a stop still running then does not honour its timeout
+			if !exited(time.Duration(drainMs)*time.Millisecond + 20*time.Second) {
+				overdue++
+			}
 		} else {
 			evb.waitAny(30*time.Second, "onshutdown", "exit")
 			probe()
@@ -434,6 +457,11 @@ func main() {
 			lv.cl.Close()
 		}
 		arr.releaseAll()
+		// in process only: the sweep goroutines of this stop must not reach into the connections of the next trial
+		if ex && !swb.waitCount(60*time.Second, "done", len(lis)) {
+			return fmt.Errorf("case %d: go-away sweep still running 60 s after every client connection was closed", c.ID)
+		}
+		swb.reset()
 		rs.Put(map[string]interface{}{"id": c.ID, "proto": c.Proto, "mode": c.Mode, "exited": ex, "elapsed_ms": time.Since(t0).Milliseconds()})
 		if !ex {
 			return fmt.Errorf("case %d: Shutdown did not return within 90 s after every request had completed", c.ID)
